@@ -1,4 +1,5 @@
 import SurfProofs.Lemmas.ProtoStream
+import SurfProofs.Lemmas.ProtoResolve
 /-!
 # C04 — every well-formed terminal report or key sequence decodes to what it encodes
 
@@ -15,7 +16,8 @@ bytes), `SurfModel/Tokenizer.lean` (C03), `SurfModel/Stream.lean` (their composi
 -/
 namespace SurfProofs.C04
 open SurfModel SurfModel.Tokenizer SurfModel.Grammar SurfModel.Payload SurfModel.Protocol SurfModel.Automata
-open SurfModel.Stream SurfProofs.ProtoStream SurfProofs.ProtoKeyTable SurfProofs.ProtoKeys SurfProofs.ProtoBytes
+open SurfModel.Stream SurfModel.StreamCheck SurfProofs.ProtoStream SurfProofs.ProtoKeyTable SurfProofs.ProtoKeys
+open SurfProofs.ProtoBytes SurfProofs.ProtoResolve
 
 /-! ## every message is a word of the grammar of its family -/
 
@@ -36,12 +38,12 @@ theorem C04_member (m : Msg) (h : m.Valid) : (grammar m.family).Matches (bytes (
   | termcapFail names upper => exact ProtoTermcap.termcapFail_member names upper h
   | keyboardLevel flags => exact ProtoNumeric.keyboardLevel_member flags
   | csiU code alts mods => exact ProtoNumeric.csiU_member code alts mods
-  | kittyImage id placement error => exact ProtoTermcap.kittyImage_member id placement error h
+  | kittyImage id number placement error => exact ProtoTermcap.kittyImage_member id number placement error h
   | paste t => exact ProtoText.paste_member t h
   | sgr items => exact ProtoSgr.sgr_member items h
 
 example : (Msg.mouse 68 65535 1 true).Valid := by simp [Msg.Valid, Vt.usizeMax]
-example : (Msg.color (.palette 255) (.rgb ⟨4, 65535⟩ ⟨2, 128⟩ ⟨1, 15⟩) .bel).Valid := by
+example : (Msg.color (.palette 255) (.rgb ⟨4, 65535⟩ ⟨2, 128⟩ ⟨1, 15⟩ true) .bel).Valid := by
   simp [Msg.Valid, ColorSpec.Valid, Channel.Valid, Vt.usizeMax]
 
 /-! ## the payload decoder returns the denoted event -/
@@ -72,7 +74,7 @@ theorem C04_payload_family (m : Msg) (h : m.Valid) (hk : m.family ≠ .keys) :
   | termcapFail names upper => exact ProtoTermcap.termcapFail_payload names upper h
   | keyboardLevel flags => exact ProtoNumeric.keyboardLevel_payload flags h
   | csiU code alts mods => exact ProtoNumeric.csiU_payload code alts mods h
-  | kittyImage id placement error => exact ProtoTermcap.kittyImage_payload id placement error h
+  | kittyImage id number placement error => exact ProtoTermcap.kittyImage_payload id number placement error h
   | paste t => exact ProtoText.paste_payload t h
   | sgr items => exact ProtoSgr.sgr_payload items h
 
@@ -232,16 +234,128 @@ theorem C04_table_check (rows : Array Row) (h : sdCheck rows = true) :
       | none => rfl
       | some x => rw [hn] at hb; simp at hb
 
-/-- what follows for a parsed family needs no separate hypothesis: `Terminated` is only asked of literal keys -/
-example : (Msg.cursor 24 80).family ≠ .keys := by simp [Msg.family]
+/-! ### the exception set of literal keys, and everything discharged by the per-run checks -/
 
-/-- a stream that meets the hypotheses on the messages: a report, text, a key, a report -/
-example {σ : Type} (A : TAuto σ) (hk : Terminated A (.key 0) → True) :
-    ∀ m ∈ [Msg.cursor 24 80, .text 0x20AC, .decMode .bracketedPaste .enabled], m.Valid ∧ ¬ m.Ambiguous ∧
-      (m.family = .keys → Terminated A m) := by
+open Wire in
+/-- **Exactly six.** If the driver's checks pass on a dumped table, every spelling of the naming table other than
+    the six prefix keys of the specification (`ESC`, `ESC [`, `ESC ]`, `ESC _`, `ESC O`, `ESC P`: esc, alt+[, alt+],
+    alt+_, shift+alt+o, shift+alt+p) ends in a terminal state; the six end in accepting non-terminal states; and
+    every accepting non-terminal state of the table is the state of one of the six. -/
+theorem C04_prefix_keys_exact (rows : Array Row) (h1 : keysTermCheck rows = true) (h2 : prefixExactCheck rows = true) :
+    (∀ i, i < protoKeys.length → print (.key i) ∉ prefixKeys → Terminated (rowsAuto rows) (.key i)) ∧
+    (∀ i, i < protoKeys.length → print (.key i) ∈ prefixKeys →
+      ∀ q, runA (rowsAuto rows).toAuto (rowsAuto rows).start (bytes (print (.key i))) = some q →
+        (rowsAuto rows).accepting q = true ∧ (rowsAuto rows).terminal q = false) ∧
+    (∀ s, s < rows.size → (rowsAuto rows).accepting s = true → (rowsAuto rows).terminal s = false →
+      ∃ w ∈ prefixKeys, runRows rows w = some s) :=
+  ⟨fun i hi => (keysTermCheck_sound rows h1 i hi).1, fun i hi => (keysTermCheck_sound rows h1 i hi).2,
+   fun s hs => prefixExact_sound rows h2 s hs⟩
+
+open Wire in
+/-- **Streams, with every hypothesis on the automaton discharged by the per-run checks.** For a dumped table that
+    passes the driver's three checks (`sd`: `sdCheck`, `keysTermCheck`) and realises the combined grammar (the
+    exhaustive bisimulation `gram bisim` of the same run), every list of valid messages other than the two
+    documented ambiguities — cursor reports `CSI 1 ; n R` with n = 2..8 and the six prefix keys — decodes to its
+    events, whatever follows. -/
+theorem C04_stream_checked (rows : Array Row) (hsd : sdCheck rows = true) (hk : keysTermCheck rows = true)
+    (hR : Realises (rowsAuto rows)) (ms : List Msg)
+    (hms : ∀ m ∈ ms, m.Valid ∧ ¬ m.Ambiguous ∧ print m ∉ prefixKeys) (rest : List UInt8) :
+    decodeEvents (rowsAuto rows) (bytes (ms.flatMap print) ++ rest) =
+      match decodeEvents (rowsAuto rows) rest with
+      | .ok evs => .ok (ms.map denote ++ evs)
+      | .error e => .error e := by
+  obtain ⟨hS, hT⟩ := C04_table_check rows hsd
+  refine C04_stream (rowsAuto rows) hT hR hS ms ?_ rest
+  intro m hm
+  obtain ⟨hv, hna, hnp⟩ := hms m hm
+  refine ⟨hv, hna, fun hfam => ?_⟩
+  cases m with
+  | key i => exact (keysTermCheck_sound rows hk i hv).1 hnp
+  | _ => simp [Msg.family] at hfam
+
+/-- the same for the DFA compiled from the combined grammar, given a table that passes the checks and is
+    observationally equal to it (accepting, terminal, tags: what `gram bisim` compares) -/
+theorem C04_stream_model_checked (rows : Array Wire.Row) (hsd : sdCheck rows = true) (hk : keysTermCheck rows = true)
+    (hB : Bisim (rowsAuto rows) modelAuto) (ms : List Msg)
+    (hms : ∀ m ∈ ms, m.Valid ∧ ¬ m.Ambiguous ∧ print m ∉ prefixKeys) (rest : List UInt8) :
+    decodeEvents modelAuto (bytes (ms.flatMap print) ++ rest) =
+      match decodeEvents modelAuto rest with
+      | .ok evs => .ok (ms.map denote ++ evs)
+      | .error e => .error e := by
+  obtain ⟨hS, _⟩ := C04_table_check rows hsd
+  refine C04_stream_model (hB.selfDelimiting hS) ms ?_ rest
+  intro m hm
+  obtain ⟨hv, hna, hnp⟩ := hms m hm
+  refine ⟨hv, hna, fun hfam => ?_⟩
+  cases m with
+  | key i => exact hB.terminated _ ((keysTermCheck_sound rows hk i hv).1 hnp)
+  | _ => simp [Msg.family] at hfam
+
+/-! ### the two documented ambiguities resolve in favour of the key -/
+
+/-- **`CSI 1 ; n R`, n = 2..8, is F3 with modifiers.** The bytes of such a cursor report are a spelling of the
+    naming table (entry `362 + n`), hence by `C04_stream` they decode as the key F3 with modifier mask `n - 1`. -/
+theorem C04_cpr_resolution {σ : Type} (A : TAuto σ) (hT : A.toAuto.TermOk) (hR : Realises A) (H : SelfDelimiting A)
+    (c : Nat) (hc : 2 ≤ c ∧ c ≤ 8) (hterm : Terminated A (.key (362 + c))) (rest : List UInt8) :
+    decodeEvents A (bytes (print (.cursor 1 c)) ++ rest) =
+      match decodeEvents A rest with
+      | .ok evs => .ok (Event.key ⟨.f 3, c - 1⟩ :: evs)
+      | .error e => .error e := by
+  obtain ⟨hlt, hpr, hden, _⟩ := cpr_is_key c hc
+  have := C04_stream A hT hR H [.key (362 + c)] (by
+    intro m hm
+    simp only [List.mem_singleton] at hm
+    subst hm
+    exact ⟨hlt, by simp [Msg.Ambiguous], fun _ => hterm⟩) rest
+  simp only [List.flatMap_cons, List.flatMap_nil, List.append_nil, List.map_cons, List.map_nil, hpr, hden] at this
+  rw [this]
+  cases decodeEvents A rest <;> rfl
+
+/-- **A key followed by input that cannot continue it is that key** — in particular each of the six prefix
+    keys; followed by input that does continue it to another spelling of the naming table it is that longer key
+    (`C04_stream` on the longer spelling: the bytes are the same). -/
+theorem C04_prefix_key_resolution {σ : Type} (A : TAuto σ) (hT : A.toAuto.TermOk) (hR : Realises A) (i : Nat)
+    (hv : (Msg.key i).Valid) (b : UInt8) (rest : List UInt8)
+    (hdead : ∀ q, runA A.toAuto A.start (bytes (print (.key i))) = some q → A.step q b = none) :
+    decodeEvents A (bytes (print (.key i)) ++ b :: rest) =
+      match decodeEvents A (b :: rest) with
+      | .ok evs => .ok (denote (.key i) :: evs)
+      | .error e => .error e :=
+  key_then_dead A hT hR i hv b rest hdead
+
+set_option maxRecDepth 100000 in
+/-- ESC followed by `a` is a spelling of alt+a: entries 0 (`ESC`, esc) and 3 (`ESC a`, alt+a) of the naming table -/
+example : print (.key 3) = print (.key 0) ++ [97] ∧ denote (.key 3) = .key ⟨.char 97, modAlt⟩ ∧
+    print (.key 0) ∈ prefixKeys ∧ print (.key 3) ∉ prefixKeys := by decide +kernel
+
+/-! ### the tables the specification shares with the library are pinned -/
+
+/-- the decoder's palette (tables regenerated from the implementation) is the xterm palette of the specification,
+    and the 16 named colours are the literal values of the library's table -/
+theorem C04_palette_pinned :
+    (∀ i, i < 256 → Sgr.palette i = some (xtermPalette i)) ∧
+    Generated.cube6 = [0, 95, 135, 175, 215, 255] ∧
+    (∀ i, i < 16 → (Generated.colors16[i]?).map Sgr.colorOf = some (xtermPalette i)) :=
+  ⟨ProtoPalette.palette_eq, ProtoPalette.cube_pinned, ProtoPalette.named_eq⟩
+
+/-- the library's table of DEC private modes and DECRPM status values agrees with the numbers of the protocol
+    documents (25 cursor, 7 autowrap, 80 sixel scrolling, 1000 / 1003 / 1006 mouse, 1049 alternate screen, 2026
+    synchronized output, 2004 bracketed paste; 0..4) -/
+theorem C04_dec_modes (m : PrivateMode) (s : ReportStatus) :
+    DecMode.fromUsize m.number = some m.name ∧ DecModeStatus.fromUsize s.value = some s.name :=
+  ⟨ProtoNumeric.decMode_fromUsize m, ProtoNumeric.decStatus_fromUsize s⟩
+
+/-- a stream that meets the hypotheses on the messages: a report, text, a key (F5: `CSI 15 ~`, entry 155), a
+    DECRPM report, `CSI m` -/
+example : ∀ m ∈ [Msg.cursor 24 80, .text 0x20AC, .key 155, .decMode .bracketedPaste .set, .sgr [.empty]],
+    m.Valid ∧ ¬ m.Ambiguous ∧ print m ∉ prefixKeys := by
   intro m hm
   simp only [List.mem_cons, List.not_mem_nil, or_false] at hm
-  rcases hm with rfl | rfl | rfl <;>
-    simp [Msg.Valid, Msg.Ambiguous, Msg.family, Vt.usizeMax, isScalar]
+  rcases hm with rfl | rfl | rfl | rfl | rfl
+  · simp [Msg.Valid, Msg.Ambiguous, Vt.usizeMax, print, prefixKeys, CSI]
+  · refine ⟨by simp [Msg.Valid, Scalar], by simp [Msg.Ambiguous], by decide⟩
+  · exact ⟨by show 155 < protoKeys.length; rw [protoKeys_length]; omega, by simp [Msg.Ambiguous], by decide +kernel⟩
+  · simp [Msg.Valid, Msg.Ambiguous, print, prefixKeys, CSI]
+  · simp [Msg.Valid, Msg.Ambiguous, SgrItem.Valid, print, prefixKeys, CSI, sgrParams, joinWith, SgrItem.print]
 
 end SurfProofs.C04
